@@ -51,6 +51,13 @@ def _run_one(args):
     except Exception as exc:  # noqa
         return m["name"], "error", repr(exc)
     new = [f for f in ctx.findings if f.key not in base_keys]
+    if m.get("silent"):
+        # behaviour-preserving variant: the rules must stay silent (false-alarm control)
+        if err is not None:
+            return m["name"], "missed", "false alarm (ANALYSIS-ERROR) on a behaviour-preserving variant: " + err[:120]
+        if new:
+            return m["name"], "missed", "false alarm on a behaviour-preserving variant: " + new[0].key
+        return m["name"], "caught", "silent as required"
     want = m.get("expect", "")
     hit = [f.key for f in new if f.rule.startswith(want) or want in f.key]
     if hit:
